@@ -42,6 +42,7 @@ const (
 	PHeap  PtrKind = iota // pointer into a heap object of (named struct) type Root, at field path Path
 	PLocal                // pointer into a local cell
 	PGlobal               // pointer to a package-level variable (cell shared per run)
+	PDyn                  // pointer to a dynamically allocated array of scalars (content in bmem[Ref])
 )
 
 type PtrV struct {
@@ -117,7 +118,7 @@ func (v LockV) comps() []*Term   { return []*Term{v.Held} }
 func (v OnceV) comps() []*Term   { return []*Term{v.Done} }
 func (v BufV) comps() []*Term    { return []*Term{v.ID, v.Len} }
 func (v PtrV) comps() []*Term {
-	if v.Kind == PHeap {
+	if v.Kind == PHeap || v.Kind == PDyn {
 		return []*Term{v.Ref}
 	}
 	return nil
@@ -174,7 +175,7 @@ func (v LockV) rebuild(ts []*Term) Value   { return LockV{ts[0]} }
 func (v OnceV) rebuild(ts []*Term) Value   { return OnceV{ts[0]} }
 func (v BufV) rebuild(ts []*Term) Value    { return BufV{ts[0], ts[1]} }
 func (v PtrV) rebuild(ts []*Term) Value {
-	if v.Kind == PHeap {
+	if v.Kind == PHeap || v.Kind == PDyn {
 		v.Ref = ts[0]
 	}
 	return v
@@ -234,6 +235,8 @@ func (v PtrV) shape() string {
 		return "ptr:" + typeKey(v.Root) + pathStr(v.Path)
 	case PLocal:
 		return fmt.Sprintf("lptr:%d%s", v.Cell.id, pathStr(v.Path))
+	case PDyn:
+		return "dynarr:" + typeKey(v.Root)
 	}
 	return fmt.Sprintf("gptr:%d%s", v.Cell.id, pathStr(v.Path))
 }
@@ -244,7 +247,7 @@ func (v SliceV) shape() string {
 	case StField:
 		return "slice:fld:" + typeKey(v.Root) + pathStr(v.Path)
 	}
-	return fmt.Sprintf("slice:loc:%d%s", v.Cell.id, pathStr(v.Path))
+	return fmt.Sprintf("slice:loc:%d(%s)%s", v.Cell.id, v.Cell.name, pathStr(v.Path))
 }
 func shapes(vs []Value) string {
 	var sb strings.Builder
